@@ -120,7 +120,7 @@ func c07Run(c core.Case, env *core.Env) core.Result {
 		fail := func(rule, cause, f string, a ...any) {
 			res.FailReplay(fmt.Sprintf("C07/squashfs/%s/%s", rule, cause), fmt.Sprintf(f, a...), map[string]any{"config": o, "start": p.Start, "shape": p.Shape, "nodes": len(t)}, replay)
 		}
-		st := monstore.NewMem(p.Start + size + 1<<20)
+		st := monstore.NewMemFilled(p.Start+size+1<<20, uint64(c.Seed)|1) // not blank: a reused image file or partition
 		st.SetLog(false)
 		err, pi := guardErr(func() error { return buildSquash(st, size, p.Start, o, t) })
 		res.Count("finalize.calls", 1)
@@ -244,7 +244,7 @@ func init() {
 	core.Register(&core.Check{
 		ID:    "C07",
 		Level: "exploration",
-		Rule: "generated workspace trees (mixed; a directory with 300-1200 entries so listings span metadata blocks; sizes 0,1,block-1,block,block+1,...; 150 small files sharing fragment blocks; zero runs, compressible and incompressible data; symlinks incl. dangling and 600-byte targets; names up to 255 bytes; a flat directory of 450-650 inodes of varying sizes - symlinks with 40..250-byte targets, files with 1..12-entry block lists, empty files, directories - so that every 8 KiB metadata-block boundary of the inode table falls inside some inode at a varying position; 530-1130 files of just under one 4 KiB block each, so that the fragment table spans several metadata blocks) finalized under every configuration of a matrix {none, gzip, xz, lz4, zstd} x {fragments, NoFragments} x block size {4 KiB, 128 KiB, 1 MiB} x NoCompress*/NoPad flags at start 0 or 1 MiB; each image is re-opened and walked with cache sizes {default, 0, 1 block, 3 blocks}: directories, byte-identical contents and link targets must equal the source and the canonical form must be identical across all configurations (differential); an independent superblock reader checks bytes_used against the highest byte Finalize wrote (write log of the store), table pointers, inode count, block size/log, fragment count; a Finalize refusal for a tree of directories, files and symlinks is a violation; non-trivial = image finalized and walked; distinct = distinct (configuration, start, tree)",
+		Rule: "generated workspace trees (mixed; a directory with 300-1200 entries so listings span metadata blocks; sizes 0,1,block-1,block,block+1,...; 150 small files sharing fragment blocks; zero runs, compressible and incompressible data; symlinks incl. dangling and 600-byte targets; names up to 255 bytes; a flat directory of 450-650 inodes of varying sizes - symlinks with 40..250-byte targets, files with 1..12-entry block lists, empty files, directories - so that every 8 KiB metadata-block boundary of the inode table falls inside some inode at a varying position; 530-1130 files of just under one 4 KiB block each, so that the fragment table spans several metadata blocks) finalized under every configuration of a matrix {none, gzip, xz, lz4, zstd} x {fragments, NoFragments} x block size {4 KiB, 128 KiB, 1 MiB} x NoCompress*/NoPad flags at start 0 or 1 MiB, on storage pre-filled with a non-zero pattern; each image is re-opened and walked with cache sizes {default, 0, 1 block, 3 blocks}: directories, byte-identical contents and link targets must equal the source and the canonical form must be identical across all configurations (differential); an independent superblock reader checks bytes_used against the highest byte Finalize wrote (write log of the store), table pointers, inode count, block size/log, fragment count; a Finalize refusal for a tree of directories, files and symlinks is a violation; non-trivial = image finalized and walked; distinct = distinct (configuration, start, tree)",
 		Assumptions: []string{"the worker's cwd is deliberately not the workspace", "bytes_used may be followed by padding up to the next 4 KiB boundary unless NoPad"},
 		MinSigs:   map[string]int{"quick": 40, "thorough": 1500},
 		NeedMarks: []string{"comp none", "comp gzip", "comp xz", "comp lz4", "comp zstd", "no fragments", "cache 0-blocks", "cache 1-blocks", "image at non-zero start", "shape many-entries", "shape symlinks", "shape inode-farm", "shape fragment-farm"},
